@@ -5,5 +5,5 @@ Require Import ExtrOcamlBasic.
 From Coq Require Import BinNums.
 From SWH.model Require Import Cli.
 Extraction "extract/C18/model.ml" identify_model spec spec_strict in_scope in_scope_literal designated
-  identify_old_realpath identify_old_rectype identify_old_autolink identify_old_recfollows identify_old_originuncaught all_cfgs nondefault identify_many spec_many in_scope_many
+  identify_old_realpath identify_old_rectype identify_old_autolink identify_old_recfollows identify_old_originuncaught identify_old_stopswallowed all_cfgs nondefault identify_many spec_many in_scope_many
   (* number types that ocaml/conv.ml expects to see *) positive N Z.
